@@ -49,6 +49,6 @@ package rdb
 //@   ensures continuation_chunk_carries_the_keys_expiry: cont0 && entry != nil && err == nil ==> entry.ExpireAt == prevExpire
 //@   loop 1:
 //@     invariant a_continuation_returns_in_the_first_iteration: entry != nil && fresh(entry) && (cont0 ==> firstIter && entry.ExpireAt == 0 && l.totalEntries != l.readEntries && l.lastEntry != nil && l.lastEntry.Type < 64 && l.lastEntry.ExpireAt == prevExpire)
-//@ func ObjectParser.Key(self) (k)
+//@ func Parser.Key(self) (k)
 //@   trusted accessor: the key of the value being parsed
 //@   modifies nothing
